@@ -17,6 +17,8 @@ pub struct Gen {
     pending: Option<OpCall>,
     pub allow_iter: bool,
     pub maxdim: usize,
+    /// vector-heavy run: most calls go to BaseVector methods
+    pub vec_bias: bool,
 }
 
 fn oc(op: &str, a: usize, b: usize, dst: usize, ia: Vec<i64>) -> OpCall {
@@ -25,7 +27,7 @@ fn oc(op: &str, a: usize, b: usize, dst: usize, ia: Vec<i64>) -> OpCall {
 
 impl Gen {
     pub fn new(rng: StdRng, allow_iter: bool, maxdim: usize) -> Gen {
-        Gen { rng, pending: None, allow_iter, maxdim }
+        Gen { rng, pending: None, allow_iter, maxdim, vec_bias: false }
     }
 
     pub fn reset(&mut self) {
@@ -203,7 +205,10 @@ impl Gen {
             return self.build_call(dst, r, c);
         }
         loop {
-            let cat = self.ru(0, 99);
+            let mut cat = self.ru(0, 99);
+            if self.vec_bias && self.p(0.6) {
+                cat = 99;
+            }
             let r = match cat {
                 0..=9 => Some(self.build_any()),
                 10..=24 => self.structural(meta),
@@ -212,9 +217,9 @@ impl Gen {
                 47..=58 => self.product(meta),
                 59..=64 => self.stack(meta),
                 65..=69 => self.element(meta),
-                70..=79 => self.reduce(meta),
-                80..=87 => self.stats(meta),
-                88..=91 => self.equality(meta),
+                70..=77 => self.reduce(meta),
+                78..=84 => self.stats(meta),
+                85..=87 => self.equality(meta),
                 _ => self.vector(meta),
             };
             if let Some(c) = r {
@@ -498,8 +503,14 @@ impl Gen {
     }
 
     fn vector(&mut self, meta: &[Meta]) -> Option<OpCall> {
-        let k = self.ru(0, 19);
+        let mut k = self.ru(0, 19);
         let dst = self.any_slot();
+        if self.vecs(meta, ANY).is_empty() {
+            k = self.ru(0, 4); // no vector register yet: make one
+            if k == 3 {
+                k = 4;
+            }
+        }
         match k {
             0 => {
                 let a = self.pick_m(meta, ANY)?;
